@@ -260,12 +260,27 @@ sys.setswitchinterval(1e-6)
 errs = []
 convs = [None] * nthreads
 bar = threading.Barrier(nthreads)
+# the battery exists BEFORE any converter does; every other trial its items are used by each thread
+# IMMEDIATELY after its own get_converter() returns (no waiting for the other threads), late-alphabet
+# classes first - a thread may be handed a converter while another thread is still resolving
+mm = MM.load(ctx.mm_path())
+from vf.pyside import Py
+py = Py(pkg, mm, make_converter=False)
+bat = c19.build_battery(mm, py, heavy=False)
+early = sorted(bat, key=lambda it: getattr(it[1], "__name__", ""), reverse=True)[:40] if %(immediate)r else []
+early_res = [None] * nthreads
 def w(k):
     bar.wait()
     try:
         convs[k] = cv.get_converter()
     except BaseException as e:
         errs.append("creation: " + repr(e)[:160])
+        return
+    if early:
+        try:
+            early_res[k] = c19.run_battery(convs[k], early)
+        except BaseException as e:
+            errs.append("immediate use: " + repr(e)[:160])
 ts = [threading.Thread(target=w, args=(k,), name="t%%d" %% k) for k in range(nthreads)]
 [t.start() for t in ts]; [t.join() for t in ts]
 if inject:
@@ -273,11 +288,14 @@ if inject:
     for c in list(targets): sys.monitoring.set_local_events(3, c, 0)
 sys.setswitchinterval(0.005)
 # battery on every converter, from threads concurrently
-mm = MM.load(ctx.mm_path())
-from vf.pyside import Py
-py = Py(pkg, mm)
-bat = c19.build_battery(mm, py, heavy=False)
 results = [None] * nthreads
+if early:
+    refc = cv.get_converter()
+    want = c19.run_battery(refc, early)
+    for k in range(nthreads):
+        if early_res[k] is not None and early_res[k] != want:
+            bad = [early[q][0] for q in range(len(early)) if early_res[k][q] != want[q]][:3]
+            errs.append("immediate use differs: thread %%d items %%s got %%s" %% (k, bad, [early_res[k][q][:80] for q in range(len(early)) if early_res[k][q] != want[q]][:1]))
 def b(k):
     if convs[k] is None: return
     try:
@@ -308,7 +326,7 @@ print(json.dumps({"errs": errs, "results": results, "events": len(events), "crit
 
 
 def run_trial(n, seed, inject, p=0.5, watchdog=240):
-    code = TRIAL % {"verif": common.VERIF, "n": n, "seed": seed, "inject": inject, "p": p, "watchdog": watchdog, "shared": (seed % 3 == 0)}
+    code = TRIAL % {"verif": common.VERIF, "n": n, "seed": seed, "inject": inject, "p": p, "watchdog": watchdog, "shared": (seed % 3 == 0), "immediate": (seed % 2 == 1)}
     env = dict(os.environ, PYTHONPATH=common.VERIF, PYTHONHASHSEED="0")
     try:
         pr = subprocess.run([common.PY, "-c", code], env=env, cwd=common.VERIF, capture_output=True, text=True, timeout=watchdog + 30)
@@ -399,7 +417,7 @@ def main(tier):
                 sw_total += out["switches"]
                 multi += out["threads_in_critical"] > 1
             for e in out["errs"]:
-                kind = e.split("(")[0]
+                kind = e.split(":")[0] if e.startswith(("immediate", "shared")) else e.split("(")[0]
                 rep.fail("concurrent first use raises|%s" % kind[:60], dict(wit, error=e))
             for k2, d in enumerate(out["results"]):
                 if d is not None and ref is not None and d != ref:
